@@ -292,6 +292,15 @@ def gen_pairs(seed, count, depth):
         sv = pool.struct([('id', u8), ('vecdata', ('vec', elem))], name='FxBigVs%d' % k)
         fixed.append((lb, sv, 1)); fixed.append((sv, lb, 1))
         fixed.append((pool.table([(lb, 1, True), (u8, 2, True)], hash_=7, name='FxBigTa%d' % k), pool.table([(sv, 1, True), (u8, 2, True)], hash_=7, name='FxBigTb%d' % k), 1))
+    # logical buffer vs logical buffer whose element types are fungible but differ in integral-ness (ARRAY vs BINARY
+    # on the wire), and logical buffers of the same element type but different capacity: no expectation, only the
+    # implication "trait true => wire compatible" and symmetry
+    wr32 = pool.wrapper(P('std::uint32_t'), name='FxWr32')
+    for k, (ea, eb, ca, cb) in enumerate([(wr32, P('std::uint32_t'), 4, 4), (P('std::uint32_t'), wr32, 4, 4), (wr32, P('std::uint32_t'), 4, 6), (P('std::uint16_t'), P('std::uint16_t'), 3, 5)]):
+        la = pool.lbuf(ea, ca, 'std::uint8_t', storage='arr', name='FxLbMixA%d' % k)
+        lb_ = pool.lbuf(eb, cb, 'std::size_t', storage='carr', name='FxLbMixB%d' % k)
+        fixed.append((la, lb_, -1))
+        fixed.append((pool.wrapper_lbuf(ea, ca, 'std::uint8_t', storage='arr', name='FxWlMixA%d' % k), pool.wrapper_lbuf(eb, cb, 'std::uint16_t', storage='carr', name='FxWlMixB%d' % k), -1))
     for a, b, exp in fixed:
         pairs.append((a, b, exp, ['fixed']))
     while len(pairs) < count and tries < count * 50:
